@@ -125,9 +125,15 @@ pub fn check_page_case(c: &PageCase, agg: &mut Agg) -> Result<(), String> {
                 }
             }
             pages += 1;
+            // a page shorter than asked for must either exhaust the matching batches or be a page-size cap
+            // (>= PAGE_CAP_MIN items): clients commonly stop at the first short page
+            let remaining = reference.iter().filter(|id| cursor.map(|cu| **id > cu).unwrap_or(true)).count();
+            if page.len() < (*limit as usize).min(remaining) && page.len() < crate::engine_inv::PAGE_CAP_MIN {
+                return Err(format!("{what}: page {:?} ends early: {} matching batches follow the cursor", page, remaining));
+            }
             got.extend(&page);
             // a client pages until it gets an empty page (a page may be shorter than the requested limit if the
-            // contract caps page sizes; the property only promises that cursor paging reaches everything once)
+            // contract caps page sizes)
             if page.is_empty() {
                 break;
             }
@@ -161,6 +167,10 @@ pub fn check_page_case(c: &PageCase, agg: &mut Agg) -> Result<(), String> {
                 return Err(format!("IbcQueue start_after={cursor:?} limit={limit}: bad page {:?}", page));
             }
             pages += 1;
+            let remaining = reference.iter().filter(|id| cursor.map(|cu| **id > cu).unwrap_or(true)).count();
+            if page.len() < (*limit as usize).min(remaining) && page.len() < crate::engine_inv::PAGE_CAP_MIN {
+                return Err(format!("IbcQueue start_after={cursor:?} limit={limit}: page {:?} ends early: {} packets follow the cursor", page, remaining));
+            }
             got.extend(&page);
             if page.is_empty() || pages > pref.len() + 5 {
                 break;
